@@ -200,9 +200,22 @@ class C12(Check):
                 tr = f"fn_to_sympy({val}.fn, origin=f'{{{rx}}}:{{{cpd}}}', model_args=[symbols[_c0] for _c0 in {val}.args])"
                 wants = {f"{prev} + {tr} * rxns[{rx}]"}
             got9 = set()
+            ZERO9 = ("sympy.Float(0.0)", "sympy.Float(0)", "sympy.Integer(0)", "sympy.S.Zero", "0", "0.0")
             for stp in paths9:
                 stores = [e for e in stp.events if e[0] == "store" and e[1] == f"eqs[{cpd}]"]
-                got9.add(stores[-1][2] if len(stores) == 1 else f"{len(stores)} stores")
+                if len(stores) == 1:
+                    v9 = stores[-1][2]
+                    # `eqs[cpd] + term` on a path that knows cpd to be present is the same accumulation
+                    present = [p_ for c_, p_ in stp.conds if c_ == f"{cpd} in eqs"] + [not p_ for c_, p_ in stp.conds if c_ == f"{cpd} not in eqs"]
+                    if v9.startswith(f"eqs[{cpd}] + ") and present and present[0]:
+                        v9 = prev + v9[len(f"eqs[{cpd}]"):]
+                    got9.add(v9)
+                elif len(stores) == 2 and stores[0][2] in ZERO9 and stores[1][2].startswith(f"eqs[{cpd}] + ") \
+                        and ([p_ for c_, p_ in stp.conds if c_ == f"{cpd} in eqs"] + [not p_ for c_, p_ in stp.conds if c_ == f"{cpd} not in eqs"] or [True])[0] is False:
+                    # absent -> initialised with zero, then accumulated
+                    got9.add(prev + stores[1][2][len(f"eqs[{cpd}]"):])
+                else:
+                    got9.add(f"{len(stores)} stores")
             anchor9 = [a for a in ast.walk(inner[0]) if isinstance(a, ast.Assign) and norm(a.targets[0]) == f"eqs[{cpd}]"]
             if paths9 and got9 <= wants:
                 self.holds("Y9", SYM, q, cons, anchor9[0] if anchor9 else inner[0], f"eqs[cpd] += coefficient * rate over {table}")
